@@ -158,7 +158,11 @@ def run_case(rng, tier, idx):
         c.desc['N'] = N
         c.tag('load:' + kind)
         c.nontrivial = kind != 'uniaxial'
-        p.Nxx, p.Nyy, p.Nxy = N
+        # a resultant that is zero is either assigned as 0.0 or left at the attribute's default (None): the same load
+        unset = [bool(v == 0.0 and rng.random() < 0.5) for v in N]
+        p.Nxx, p.Nyy, p.Nxy = [None if u else v for u, v in zip(unset, N)]
+        if any(unset):
+            c.tag('load:zero_components_left_unset')
         fresh = bool(rng.random() < 0.4)
         c.tag('order:fresh' if fresh else 'order:k0_first')
         try:
